@@ -1,5 +1,5 @@
 import GmQuic.Props.C06.Witness
-import GmQuic.Lemmas.Wire
+import GmQuic.Lemmas.ProtectToy
 /-!
 C06: the transparent keyed toy cipher that the harness plugs into the real code (`harness/src/c06.rs`,
 `Model/Protect.lean` `toyAead`/`toyHp`) is a correct AEAD in the sense of `CorrectAt` for EVERY key, nonce, AAD
@@ -8,19 +8,6 @@ correspondence run compares.  (Its *integrity* is a 128-bit FNV checksum: not cl
 -/
 namespace GmQuic.Protect
 open GmQuic.Wire GmQuic.Pn
-
-theorem ksXor_length (k pn i : Nat) (bs : Bytes) : (ksXor k pn i bs).length = bs.length := by
-  induction bs generalizing i with
-  | nil => rfl
-  | cons b bs ih => simp [ksXor, ih]
-
-theorem ksXor_invol (k pn i : Nat) (bs : Bytes) : ksXor k pn i (ksXor k pn i bs) = bs := by
-  induction bs generalizing i with
-  | nil => rfl
-  | cons b bs ih => simp [ksXor, ih, xor_cancel]
-
-theorem toyTag_length (k pn : Nat) (a p : Bytes) : (toyTag k pn a p).length = 16 := by
-  simp [toyTag]
 
 theorem toy_sealLen : SealLen toyAead := by
   intro k n a p
